@@ -55,6 +55,7 @@ impl StyleArgs {
             column: self.column.unwrap_or(80),
             tab: self.tab.unwrap_or(2),
             reorder: self.reorder,
+            blank: 2,
         }
     }
 
